@@ -13,7 +13,8 @@ func init() {
 		Explanation: "Decides the sharing discipline that keeps the cached index equal to the file: (index-entry-immutable) outside the index codec, a field of an *index.Entry is assigned only through a pointer to an entry " +
 			"allocated in the same function (composite literal, address of a local copy, result of Index.Add) — or through a parameter whose every call site passes such a pointer; entries obtained from an index " +
 			"(Index.Entry, ranging over Entries) are shared with the storage's cache and must be replaced, not edited; (index-returns-copy) every index returned by IndexStorage.Index goes through copyIndex (or is freshly " +
-			"allocated), what is stored in the cache after a write is a copy stamped with the post-write stat, and copyIndex allocates a new Entries slice. Not decided: external rewrites that keep size and mtime.",
+			"allocated), what is stored in the cache after a write is a copy stamped with the post-write stat, and copyIndex allocates a new Entries slice; (deferred-error-reaches-result) in storage/filesystem an error stored by a deferred Flush/Close of a handle opened for writing lands in a named result, so a failed index write " +
+			"is not reported as success (and then cached). Not decided: external rewrites that keep size and mtime.",
 		Assumptions: []string{"callers of the public API do not mutate entries of an index they got from the storage"},
 		Run:         runC20,
 	})
@@ -36,6 +37,10 @@ func isEntryPtr(t types.Type) bool {
 
 func runC20(c *Ctx) {
 	p := c.P
+	// deferred-error-reaches-result: a failed write of the index file must not be reported as success (the cache would
+	// then hold entries that are not on disk): errors stored by deferred Flush/Close land in a named result
+	nDef := DeferredErrorsReachResult(c, "deferred-error-reaches-result", "storage/filesystem")
+	c.Check(nDef >= 3, "deferred-error-reaches-result", "storage/filesystem:writers", 0, itoa(nDef)+" functions that close or flush a write handle in a deferred call examined")
 	const r1 = "index-entry-immutable"
 	entryT := p.lookupType(idxShort, "Entry")
 	addFn := p.Func(idxShort + ".(*Index).Add")
